@@ -53,7 +53,7 @@ def main(argv):
             except Exception as e:  # the search is best-effort; never masks the violation
                 v['replay_search_error'] = repr(e)
             if v.get('hint_only') and not found:
-                out.undecided.append(f'{v["obligation"]}: only a proof hint (assert) fails in {v["function"]} and the runtime contract check found no failing input within its bound: undecided, not an alarm')
+                out.undecided.append(f'{v["obligation"]}: only proof-internal facts (hints, loop invariants, lemma preconditions) fail in {v["function"]} and the runtime contract check found no failing input within its bound: undecided, not an alarm')
                 v['demoted'] = True
                 continue
             path = driver.write_replay(a.pid, v, found)
